@@ -25,6 +25,15 @@ Theorem C18_stamp_last :
     map s2b ["Lock"; "checkVersion"; "fileExists"; "applyPatches"; "buildLinker"; "writeVersion"]%string.
 Proof. reflexivity. Qed.
 
+(* the executable search used when that obligation breaks finds no bad kill point for this order
+   (3 initial disks x every disk effect), and finds one when the stamp is written first *)
+Theorem C18_crash_search_clean :
+  crash_search (map s2b ["Lock"; "checkVersion"; "fileExists"; "applyPatches"; "buildLinker"; "writeVersion"]%string) = None.
+Proof. vm_compute. reflexivity. Qed.
+Theorem C18_crash_search_finds_stamp_first :
+  crash_search (map s2b ["Lock"; "checkVersion"; "fileExists"; "writeVersion"; "applyPatches"; "buildLinker"]%string) = Some ((SStale, KStale), 0%nat).
+Proof. vm_compute. reflexivity. Qed.
+
 (* outside the property's quantifier, recorded: a hand-deleted linker plus a kill during its rebuild *)
 Theorem C18_missing_link_then_crash_refuted :
   exists s s', ~ disk_ok (d s) /\ steps s s' /\ holder s' = None /\ link (d s') = LPartial /\ stamp (d s') = true.
@@ -35,3 +44,5 @@ Print Assumptions C18_inv_after_any_crash.
 Print Assumptions C18_partial_entry_is_a_miss.
 Print Assumptions C18_stamp_last.
 Print Assumptions C18_missing_link_then_crash_refuted.
+Print Assumptions C18_crash_search_clean.
+Print Assumptions C18_crash_search_finds_stamp_first.
